@@ -232,6 +232,8 @@ DET_CDEFS = {
                   'int f1(int, s1_t *); void f2(struct s1, char *, ...); s1_t f3(int (*)(int, long), union u *); extern int g1;'
                   'static const int K = 3; extern "Python" int cb(s1_t *, double);'),
     'many-pointer-args': 'int f(char *, short *, long *, float *, void *, int **); void g(int *, int *);',
+    'anonymous-nested': ('struct outer { int a; struct { int x; char y; }; union { long p; double q; }; struct { short s1; short s2; } named; };'
+                         'typedef struct { struct { int i; } in1; struct { float f; } in2; } two_t; int use(struct outer *, two_t *);'),
     'typedefs': 'typedef int a_t; typedef a_t *b_t; typedef b_t c_t[4]; typedef struct { c_t x; size_t n; wchar_t w; } d_t; d_t *h(intptr_t, ssize_t);',
 }
 
@@ -269,8 +271,18 @@ def determinism_worker(args):
                     state['forks'] += 1
                 out.append(items.pop(k))
             return iter(out)
+    # set algebra must stay inside the class (set.__sub__ & co. return plain sets for subclasses)
+    def _closed(name):
+        def op(self, *a):
+            r = getattr(set, name)(self, *a)
+            return NSet(r) if isinstance(r, (set, frozenset)) and not isinstance(r, NSet) else r
+        return op
+    for name in ('__sub__', '__rsub__', '__or__', '__ror__', '__and__', '__rand__', '__xor__', '__rxor__', 'copy', 'union',
+                 'intersection', 'difference', 'symmetric_difference'):
+        setattr(NSet, name, _closed(name))
     for m in (recompiler, cparser, model):
         m.set = NSet
+        m.frozenset = NSet
     texts = set()
     first = {}
 
